@@ -267,3 +267,7 @@ def run(ctx, rep):
     import c08
     from c03 import _Filter
     c08.run(ctx, _Filter(rep, keep=("R08.1", "R08.5"), rename="R05.4/"))
+    # R05.6 = R16.3 on the recovery cone: Option unwraps reached during replay are guarded by a test that implies Some
+    import c16 as _c16
+    _c16.r16_3(ctx, _Filter(rep, keep=("R16.3",), rename="R05.6/"), [(ctx.body_key(r"RaftLog::<T>::open$"), True)], floor=3,
+               site_filter=lambda e: e[0] == "field")   # stored Options; vector/map unwraps are R05.1 patterns
